@@ -210,7 +210,8 @@ func judge(c *core.Case, mc *muCase, d *driver, log []event) {
 			if r.tCall < e.T && (r.tRet == 0 || r.tRet > b.tSend) {
 				// (a fresh Client.Join in flight can only ever make its own, not
 				// yet returned, channel joined: replaced channels stay decidable)
-				if !(old && r.op == "join") {
+				// … unless it came back between the ping and the sampling
+				if !(old && r.op == "join" && (r.tRet == 0 || r.tRet > e.T)) {
 					open = true
 				}
 			}
